@@ -148,6 +148,14 @@ class C03(Spec):
         "C03_gain_timeline", "C03_silence_outside_blocks", "gainAt_silent_iff", "C03_sum_of_items_linear",
         "C03_render_formula", "C03_direct_zero_latency", "C03_diffuse_group_delay", "exBlocks_accepted",
         "exSession_ok", "C03_render_formula_os", "out_add", "out_smul", "C03_linear_in_input", "exSession_wf")) + (
+        # round 8: linearity with track specs (Proofs/C03LinearTS.lean), numpy exceptions inside the model
+        "Earverif.TrackSpec.meaning_add", "Earverif.TrackSpec.meaning_smul",
+        "Earverif.RendererTS.sAt_add", "Earverif.RendererTS.sAt_smul",
+        "Earverif.RendererTS.outAtTS_add", "Earverif.RendererTS.outAtTS_smul",
+        "Earverif.RendererTS.outTS_add", "Earverif.RendererTS.outTS_smul",
+        "Earverif.RendererTS.C03_linear_in_input_ts",
+        "Earverif.Renderer.renderAllOS_rel", "Earverif.Renderer.render_refines_spec_os_ok",
+        "Earverif.RendererTS.renderAllTSOS_rel", "Earverif.RendererTS.render_eq_outTS_os_ok",
         "Earverif.RenderSpec.outAt_add", "Earverif.RenderSpec.outAt_smul",
         "Earverif.Renderer.renderTrace_eq", "Earverif.Renderer.renderTraceOS_eq",
         "Earverif.RendererTS.renderTraceTS_eq", "Earverif.RendererTS.renderTraceTSOS_eq",
@@ -169,7 +177,10 @@ class C03(Spec):
         "SessionOKTS (SessionOK + C20 Spec.wf + HOA items with >= 1 spec). Round 7: C03_render_formula_os / "
         "C03_render_formula_ts_os state the same formula for the renderer model with the partitioned overlap-save "
         "convolver inside (extra hypothesis: the decorrelation filter has >= 1 tap), from overlapSave_eq_fir / "
-        "vbs_overlapSave_eq / renderAllOS_eq. Not under the kernel: the transform pair rfft/irfft (convolution theorem + "
+        "vbs_overlapSave_eq / renderAllOS_rel. Round 8: the *_os models raise the numpy exceptions themselves (track "
+        "outside the input, np.stack of no tracks, np.dot with a mis-shaped decode matrix), so IndexOK (in SessionWF) is a "
+        "USED hypothesis of the *_os formula theorems = 'no such exception'; InputOK is gone; C03_linear_in_input_ts "
+        "extends linearity to items with track specs. Not under the kernel: the transform pair rfft/irfft (convolution theorem + "
         "linearity = the stated abstraction of Model/OverlapSave.lean, validated numerically by the C02 check), gain "
         "calculators (captured).")
     trusted_base = c02.C02.trusted_base + (
@@ -253,9 +264,10 @@ SPEC = C03()
 
 REGISTRY = dict(
     text="FULL: Lean theorems Earverif.Timeline.C03_render_formula_os and Earverif.RendererTS.C03_render_formula_ts_os "
-    "(from render_refines_spec_os / render_eq_outTS_os) prove that for every session in the stated quantifier (SessionWF: "
-    "block_size >= 1, accepted timelines, track indices inside the input, HOA matrices as wide as the item has tracks, "
-    "decorrelation filter with >= 1 tap; InputOK: frames of n_in samples), every input and every blocking the model of "
+    "(from render_refines_spec_os / render_eq_outTS_os) prove that for every session inside SessionWF (block_size >= 1, "
+    "accepted timelines, decorrelation filter with >= 1 tap, and IndexOK: track indices inside the input, every HOA item "
+    "has a track, HOA matrices as wide as the item has tracks - a USED hypothesis now: the model raises numpy's "
+    "IndexError / ValueError itself where the real code does, see C02), every input and every blocking the model of "
     "Renderer.render/get_tail returns, at every output sample s, direct(s) + sum_k f[k]*diffuse(s+(N-1)//2-k) + ds(s) + "
     "hoa(s), each term the exact sum over items of input sample x gainAt(s); gainAt is the sample-by-sample "
     "specification (constant within a block, linear ramp p=(s-start*fs)/((target-start)*fs) over the interpolation "
@@ -268,11 +280,15 @@ REGISTRY = dict(
     "convolution theorem for numpy's rfft/irfft of length 2*block_size and linearity of irfft are ASSUMED (a spectrum is "
     "represented by its inverse transform, spectral multiply-accumulate by adding a circular convolution) and validated "
     "numerically on every C02 run against exact integer circular convolutions (1e-9). C03_render_formula / "
-    "C03_render_formula_ts are the same formulas for the model with the direct-form FIR stand-in (renderAllOS_eq / "
-    "renderAllTSOS_eq: the two models return the same for every session). Linearity: outAt_add / outAt_smul (the "
-    "specified sample is additive and homogeneous in the input frames, any LawfulRMod frame type), out_add / out_smul, "
-    "and C03_linear_in_input (rendering x+y in any blocking = frame-wise sum of the renderings of x and y in any "
-    "blockings; rendering a*x = a times the rendering of x). Component theorems: bpc_eq_gainAt (BlockProcessingChannel + "
+    "C03_render_formula_ts are the same formulas for the model with the direct-form FIR stand-in and totalised indexing "
+    "(renderAllOS_rel / renderAllTSOS_rel: same audio or same exception, or a numpy exception and then the index "
+    "conditions fail). Linearity: outAt_add / outAt_smul (the specified sample is additive and homogeneous in the input "
+    "frames, any LawfulRMod frame type), out_add / out_smul, and C03_linear_in_input (rendering x+y in any blocking = "
+    "frame-wise sum of the renderings of x and y in any blockings; rendering a*x = a times the rendering of x); the same "
+    "for items WITH TRACK SPECS: TrackSpec.meaning_add / meaning_smul (C20's literal meaning of any spec - direct, "
+    "silent, mix, gain, matrix coefficient with gain and delay, nested - is additive on inputs of the same shape and "
+    "homogeneous), sAt_add / sAt_smul, outAtTS_add / outAtTS_smul, outTS_add / outTS_smul and C03_linear_in_input_ts "
+    "(renderAllTSOS, any blockings). Component theorems: bpc_eq_gainAt (BlockProcessingChannel + "
     "InterpretObjectMetadata for all partitions and accepted timelines, no underrun), fixed_all_spec, "
     "interp_ramp_closed_form, ceil_eq_ceilQ, obj_all_spec; corollaries C03_gain_timeline, C03_silence_outside_blocks, "
     "C03_direct_zero_latency, C03_diffuse_group_delay, C03_sum_of_items_linear (component level). With track processors "
@@ -288,11 +304,12 @@ REGISTRY = dict(
     note="Trusted: Lean kernel; hand transliteration + correspondence harness; captured gains (gain calculators are other "
     "properties); numpy rfft/irfft convolution theorem + linearity (assumed, numerically validated by the C02 check). "
     "Quantifier limits: durations and interpolationLength >= 0, start >= 0 (negative start raises 'metadata underrun' in "
-    "the real code); track indices < n_in, HOA matrices of the right width, frames of n_in samples (the models index "
-    "with defaults where numpy raises; explicit as IndexOK/InputOK in the *_os theorems); track specs satisfying C20's "
-    "Spec.wf (generated delays stay off rounding ties), HOA items with >= 1 spec, one sample rate per session, filter "
-    "with >= 1 tap. C03_linear_in_input is proved for items with direct tracks (Model/Renderer + overlap-save), not "
-    "restated for track specs.",
+    "the real code); track indices < n_in, >= 1 track per HOA item, HOA matrices of the right width (outside: the *_os "
+    "models raise IndexError/ValueError as the code does - tied by the C02 correspondence cases; kernel-evaluated "
+    "examples in Props/C03.lean incl. one where WHICH exception comes first depends on the blocking); the input width "
+    "is c.n_in as in the C20 model (a model block stands for an (n, n_in) array when its frames have n_in samples; not "
+    "needed as a hypothesis); track specs satisfying C20's Spec.wf (generated delays stay off rounding ties), HOA items "
+    "with >= 1 spec, one sample rate per session, filter with >= 1 tap.",
     technique="Lean 4 refinement proof of the composed renderer (incl. the partitioned overlap-save convolver structure) "
     "against a sample-by-sample specification + linearity of the specification + differential correspondence of model "
     "and specification with the real Renderer + independent numpy reference",
